@@ -17,7 +17,11 @@ MACS = ('00:16:3e:33:44:55', 'fa:16:3e:33:44:55', '02:00:00:00:00:00',
         'ff:ff:ff:ff:ff:ff', '00:00:00:00:00:00', '01:23:45:67:89:ab',
         'fd:ff:ff:ff:ff:ff')
 PREFIXES = ('2001:db8::/64', 'fe80::/64', '2001:db8:1:2::/64',
-            'fe80::1/64', '2001:db8::/48', 'fe80::/10')
+            'fe80::1/64', '2001:db8::/48', 'fe80::/10',
+            # networks whose address is numerically tiny (an integer below
+            # 2**32 is an IPv4 address to netaddr.IPAddress) or all ones
+            '::/64', '::/0', '::1:0:0:0:0/64',
+            'ffff:ffff:ffff:ffff::/64')
 
 
 def _hook(v, val):
@@ -261,7 +265,10 @@ def _host_port(ctx):
              'fe80::1%eth0.100', 'fe80::1%' + 'z' * 15, 'fe80::1%' + 'z' * 16,
              'fe80:0000:0000:0000:0204:61ff:fe9d:f156%enp3s0',
              'host.example.org', '1.2.3', 'FE80::1', '::',
-             '::ffff:1.2.3.256')
+             '::ffff:1.2.3.256',
+             # seven groups and one compressed zero group at either end
+             '1:2:3:4:5:6:7::', '::2:3:4:5:6:7:8', '1:2:3:4:5:6:7::%eth0',
+             '1::', '::8', '1:2:3:4:5:6:7:8', '1:2:3:4::6:7:8')
     addrs = ['', 'server01', '::1', '[::1]', '2001:db8::1']
     for h in hosts:
         esc = '[%s]' % h if _v6(h) else h
@@ -359,7 +366,10 @@ def _params(ctx):
                'x=1&y=2&x=3&y=4&x=5', 'a=1&a=2&b=3&a=4', 'a=2&a=1',
                'b=9&a=3&b=1&a=2', 'z=1&a=2', 'a=b&a=B&a=a', 'k=&k=v&k=',
                'sort=name;desc&sort=age;asc', 'v=1;v=2&v=3', 'a=1;b=2',
-               'a=%3B&b=%26&a=+', 'a=1&&b=2', '&a=1', 'a', 'a=1=2')
+               'a=%3B&b=%26&a=+', 'a=1&&b=2', '&a=1', 'a', 'a=1=2',
+               # values longer than one character, three and more times
+               'a=b&a=c&a=de', 'k=one&k=two&k=three&k=four',
+               'a=xy&b=1&a=zw&a=uv&b=22&b=333')
     for q in queries:
         for collapse in (True, False):
             def thunk(interp):
